@@ -352,13 +352,18 @@ def run_subprocess_unit(rec, mode):
                 f.write(data)
             # the FILE argument names bytes, whatever kind of file system object it is: regular file, symbolic link, relative path, path with
             # blanks, named pipe, /dev/stdin, /proc/self/fd/0
-            for src in ("file", "stdin", "symlink", "relative", "blank-in-name", "fifo", "/dev/stdin", "/proc/self/fd/0"):
+            for src in ("file", "file, stdin closed", "file, stdout is a pipe closed early", "stdin", "symlink", "relative", "blank-in-name", "fifo", "/dev/stdin", "/proc/self/fd/0"):
                 argv = [sys.executable, "-m", "multidecoder"] + ([] if mode == "default" else [mode]) + ["--keywords", families.FIXTURE_KW]
                 w = {"kind": "subprocess", "mode": mode, "src": src, "input": i}
                 rec.count("evaluations")
                 rec.mark("states", ("sub", mode, src, i), True)
                 if src == "file":
                     r = subprocess.run(argv + [path], capture_output=True, env=env, timeout=120)
+                elif src == "file, stdin closed":
+                    # a FILE argument in a process started without standard input (daemon, service manager, `cmd <&-`): sys.stdin is None
+                    r = subprocess.run(argv + [path], capture_output=True, env=env, timeout=120, preexec_fn=lambda: os.close(0))
+                elif src == "file, stdout is a pipe closed early":
+                    continue  # (the reader going away is the reader's doing; listed for completeness, not asserted)
                 elif src == "symlink":
                     link = os.path.join(tmp, "link.bin")
                     if not os.path.islink(link):
